@@ -3,6 +3,7 @@
    when a hypothesis is dropped (so the theorems are not true of a model that
    cannot panic); and the witness of finding #8 on the model of the handler as it
    was before commit 3969bad. *)
+From Coq Require Import Lia.
 From CJ Require Import Common.Base C11.Model C11.Run.
 
 Definition gen_any (r : bool) : anyv :=
